@@ -12,6 +12,7 @@ package rsa
 import (
 	"fmt"
 	"math/big"
+	"sort"
 	"testing"
 
 	"github.com/cloudflare/circl/internal/zzverif/lib"
@@ -128,7 +129,7 @@ func TestVerifC17Arithmetic(t *testing.T) {
 			}
 		}
 		for _, j := range c.S {
-			lib.Eval()
+			lib.CaseS("wb-lambda", fmt.Sprint(c.l, c.S, j))
 			lib.Count("wb:lambda")
 			if !prefix {
 				lib.Count("wb:lambda-nonprefix")
@@ -143,11 +144,7 @@ func TestVerifC17Arithmetic(t *testing.T) {
 			}
 		}
 	}
-	for i := 1; i < len(bads); i++ {
-		for j := i; j > 0 && bads[j].rank < bads[j-1].rank; j-- {
-			bads[j], bads[j-1] = bads[j-1], bads[j]
-		}
-	}
+	sort.SliceStable(bads, func(i, j int) bool { return bads[i].rank < bads[j].rank })
 	for _, b := range bads {
 		lib.Violation("C17:lambda-wrong:tss-rsa:computeLambda", vc17Mon, b.detail)
 	}
@@ -171,7 +168,7 @@ func TestVerifC17Arithmetic(t *testing.T) {
 					want.Mod(want, m)
 				}
 				top := new(big.Int).Exp(big.NewInt(int64(x)), big.NewInt(int64(k-1)), nil)
-				lib.Eval()
+				lib.CaseS("wb-polynomial", fmt.Sprint(k, x, mbits))
 				lib.Count("wb:polynomial")
 				if top.BitLen() > 53 {
 					lib.Count("wb:polynomial-power-above-2^53")
@@ -185,11 +182,7 @@ func TestVerifC17Arithmetic(t *testing.T) {
 			}
 		}
 	}
-	for i := 1; i < len(bads); i++ {
-		for j := i; j > 0 && bads[j].rank < bads[j-1].rank; j-- {
-			bads[j], bads[j-1] = bads[j-1], bads[j]
-		}
-	}
+	sort.SliceStable(bads, func(i, j int) bool { return bads[i].rank < bads[j].rank })
 	for _, b := range bads {
 		lib.Violation("C17:share-polynomial-wrong:tss-rsa:computePolynomial", vc17Mon, b.detail)
 	}
